@@ -17,7 +17,7 @@ from fractions import Fraction
 import numpy as np
 
 from common import F, Rng, close_all, digest, err_class, fl, pmat, pvec, rs
-from fpca_util import trapz_weights, EigCapture, Fm, Fv, Smat, Svec, curves, dense, grid, quiet, sel_to_py
+from fpca_util import trapz_weights, pow2, EigCapture, Fm, Fv, Smat, Svec, curves, dense, grid, quiet, sel_to_py
 
 PROP = "C03"
 MODULES = ["FDAProofs.Props.C03"]
@@ -53,8 +53,20 @@ def _scores(rng, n, K):
     return [[rs(rng.dyadic(-4, 4, 2)) for _ in range(K)] for _ in range(n)]
 
 
+def _regrid(rng, t):
+    """Another grid with the same number of points and the same end points, other interior points."""
+    m = len(t)
+    lo, hi = t[0], t[-1]
+    k = 3
+    while 2 ** k < 8 * m:
+        k += 1
+    cand = [lo + (hi - lo) * Fraction(j, 2 ** k) for j in range(1, 2 ** k)]
+    cand = [c for c in cand if c not in set(t)]
+    return [lo] + sorted(rng.sample(cand, m - 2)) + [hi]
+
+
 def gen_cases(rng: Rng, tier):
-    N = 1200 if tier == "thorough" else 90
+    N = 1200 if tier == "thorough" else 80
     for k in range(N):
         method = ["covariance", "inner-product"][k % 2]
         normalize = (k // 2) % 2 == 1
@@ -71,26 +83,52 @@ def gen_cases(rng: Rng, tier):
             t = grid(rng, m)
             kind = rng.choice(["smooth", "lowrank", "lowrank", "rough", "offset"]) if method == "inner-product" else None
             X, ck = curves(rng, n, t, kind)
-            data = dict(dim=1, t=Svec(t), X=Smat(X))
+            sc = pow2(rng)
+            data = dict(dim=1, t=Svec(t), X=Smat([[x * sc for x in r] for r in X]), scale=rs(sc))
             size = m if method == "covariance" else n
         if method == "covariance":
             score = "PACE" if k % 8 == 4 else "NumInt"
         else:
             score = ["InnPro", "NumInt", "InnPro", "PACE"][(k // 2) % 4] if not two_d else ["InnPro", "NumInt"][(k // 6) % 2]
         sel = _sel(rng, size)
-        Kmax = 6
-        yield dict(kind="ufpca", method=method, normalize=normalize, score=score, sel=sel, ck=ck,
-                   a=rs(rng.dyadic(-3, 3, 2)), b=rs(rng.dyadic(-3, 3, 2)), seed=rng.subseed(), **data)
+        case = dict(kind="ufpca", method=method, normalize=normalize, score=score, sel=sel, ck=ck,
+                    a=rs(rng.dyadic(-3, 3, 2)), b=rs(rng.dyadic(-3, 3, 2)), seed=rng.subseed(), **data)
+        if k % 2 == 0 or two_d:
+            # two-grid history in one process: afterwards the same pipeline runs on ANOTHER grid with the same
+            # number of points and the same end points (other interior points), with other curves
+            if two_d:
+                tb1, tb2 = (_regrid(rng, t1) if m1 > 2 else t1), (_regrid(rng, t2) if m2 > 2 else t2)
+                XB, _ = curves(rng, n, [Fraction(j) for j in range(m1 * m2)], rng.choice(["rough", "lowrank"]))
+                case["B"] = dict(t=Svec(tb1), t2=Svec(tb2), X=Smat(XB))
+            elif m > 2:
+                tB = _regrid(rng, t)
+                XB, _ = curves(rng, n, tB, kind)
+                case["B"] = dict(t=Svec(tB), X=Smat(XB))
+        yield case
+    # inner-product route with numbers of observations around typical block sizes (cheap: few grid points)
+    sizes = [16, 17, 31, 32, 33, 63, 64, 65, 96, 97] if tier == "thorough" else [17, 32, 33, 64, 65]
+    for i, n in enumerate(sizes):
+        if i % 2 == 0:
+            t = grid(rng, 3)
+            X, ck = curves(rng, n, t, "rough")
+            data = dict(dim=1, t=Svec(t), X=Smat(X))
+        else:
+            t1, t2 = grid(rng, 2), grid(rng, 3)
+            X, ck = curves(rng, n, [Fraction(j) for j in range(6)], "rough")
+            data = dict(dim=2, t=Svec(t1), t2=Svec(t2), X=Smat(X))
+        yield dict(kind="ufpca", method="inner-product", normalize=bool(i % 2), score="InnPro", sel=rng.choice([["int", 2], ["all"]]),
+                   ck="blocksize", a="1", b="-1/2", seed=rng.subseed(), **data)
     M = 80 if tier == "thorough" else 10
     for k in range(M):
-        yield _mfpca_case(rng, normalize=(k % 2 == 0))
+        yield _mfpca_case(rng, normalize=(k % 2 == 0), image=(k % 4 < 2))
 
 
-def _mfpca_case(rng, normalize):
-    """Two components, sample mean exactly linear in t (so that the P-spline smoothing of the
-    mean that MFPCA applies reproduces it) and multivariate rank one: curve (mean_p + c_i d_p)_p with Σ c_i = 0,
-    one component kept.  (With rank ≥ 2 the unsorted Gram spectrum interleaves clipped zeros with
-    the positive eigenvalues and no finite spanning set can be requested — see C01/C02.)"""
+def _mfpca_case(rng, normalize, image=False):
+    """Two components, sample mean exactly affine (so that the P-spline smoothing of the mean that MFPCA
+    applies reproduces it) and multivariate rank one: curve (mean_p + c_i d_p)_p with Σ c_i = 0,
+    one component kept.  With `image` the second component is 2-D (rows × columns of different sizes).
+    (With rank ≥ 2 the unsorted Gram spectrum interleaves clipped zeros with the positive eigenvalues and
+    no finite spanning set can be requested — see C01/C02.)"""
     n = rng.randint(3, 6)
     cs = [Fraction(rng.randint(-6, 6), 2) for _ in range(n - 1)]
     cs.append(-sum(cs))
@@ -98,7 +136,19 @@ def _mfpca_case(rng, normalize):
         cs[0], cs[-1] = Fraction(1), Fraction(-1)
     rng.shuffle(cs)
     comps = []
-    for _ in range(2):
+    for p in range(2):
+        if image and p == 1:
+            m1, m2 = rng.randint(4, 6), rng.randint(5, 8)
+            t1, t2 = grid(rng, m1, uniform=True), grid(rng, m2, uniform=True)
+            u1 = [(x - t1[0]) / (t1[-1] - t1[0]) for x in t1]
+            u2 = [(x - t2[0]) / (t2[-1] - t2[0]) for x in t2]
+            a, b, c = rng.dyadic(-2, 2, 2), rng.dyadic(-2, 2, 2), rng.dyadic(-2, 2, 2)
+            mean = [a + b * x + c * y for x in u1 for y in u2]
+            g, h = rng.dyadics(m1, -2, 2, 2), rng.dyadics(m2, -2, 2, 2)
+            d = [1 + x * y for x in g for y in h]
+            X = [[mu + ci * dj for mu, dj in zip(mean, d)] for ci in cs]
+            comps.append(dict(t=Svec(t1), t2=Svec(t2), X=Smat(X)))
+            continue
         m = rng.randint(6, 11)
         t = grid(rng, m, uniform=True)
         a, b = rng.dyadic(-2, 2, 2), rng.dyadic(-2, 2, 2)
@@ -109,7 +159,7 @@ def _mfpca_case(rng, normalize):
         d = [x - d[0] + 1 for x in d]
         X = [[mean[j] + c * d[j] for j in range(m)] for c in cs]
         comps.append(dict(t=Svec(t), X=Smat(X)))
-    return dict(kind="mfpca", normalize=normalize, comps=comps, sel=["int", 1], ck="linear-mean-rank1",
+    return dict(kind="mfpca", normalize=normalize, comps=comps, sel=["int", 1], ck="affine-mean-rank1" + ("-image" if image else ""),
                 a=rs(rng.dyadic(-3, 3, 2)), b=rs(rng.dyadic(-3, 3, 2)), seed=rng.subseed())
 
 
@@ -156,12 +206,27 @@ def _state(est, case):
              mean=_flat(est.mean.values)[0], phi=_flat(est.eigenfunctions.values), noise=float(est._noise_variance))
     if est._eigenvectors is not None:
         d["V"] = np.asarray(est._eigenvectors, dtype=float).T.tolist()
+    if len(case["X"]) and case["dim"] == 1 and getattr(est, "covariance", None) is not None:
+        d["cov"] = np.asarray(est.covariance.values[0], dtype=float).tolist()
     return d
+
+
+def _case_b(case):
+    cb = {k: v for k, v in case.items() if k not in ("B", "t", "t2", "X", "corpus")}
+    cb.update(case["B"])
+    return cb
 
 
 def run_impl(case):
     if case["kind"] == "mfpca":
         return _run_mfpca(case)
+    out = _run_ufpca(case)
+    if "B" in case and "error" not in out:
+        out["B"] = _run_ufpca(_case_b(case))   # same process, afterwards: another grid with the same length and end points
+    return out
+
+
+def _run_ufpca(case):
     from FDApy.preprocessing.dim_reduction.ufpca import UFPCA
 
     out = {}
@@ -226,6 +291,14 @@ def run_impl(case):
     return out
 
 
+def _comp_fd(c, order):
+    X = np.array(fl(Fm(c["X"])))[order]
+    if "t2" in c:
+        t1, t2 = Fv(c["t"]), Fv(c["t2"])
+        return dense([t1, t2], X.reshape(len(X), len(t1), len(t2)))
+    return dense([Fv(c["t"])], X)
+
+
 def _run_mfpca(case):
     from FDApy.preprocessing.dim_reduction.mfpca import MFPCA
     from FDApy.representation.functional_data import MultivariateFunctionalData
@@ -239,7 +312,7 @@ def _run_mfpca(case):
         est, err, rot = None, None, 0
         for rot in list(range(n_obs)) + [0]:
             order = [(i + rot) % n_obs for i in range(n_obs)]
-            mfd = MultivariateFunctionalData([dense([Fv(c["t"])], np.array(fl(Fm(c["X"])))[order]) for c in case["comps"]])
+            mfd = MultivariateFunctionalData([_comp_fd(c, order) for c in case["comps"]])
             est = MFPCA(n_components=sel_to_py(case["sel"]), method="inner-product", normalize=case["normalize"])
             _, err = _try(lambda: est.fit(mfd))
             if err or all(np.all(np.isfinite(c.values)) for c in est.eigenfunctions.data):
@@ -291,6 +364,13 @@ def model_lines(case, impl):
 
 
 def _requests(case, impl):
+    reqs = _requests_one(case, impl)
+    if case["kind"] == "ufpca" and "B" in case and isinstance(impl.get("B"), dict):
+        reqs += [("B:" + tag, l) for tag, l in _requests_one(_case_b(case), impl["B"])]
+    return reqs
+
+
+def _requests_one(case, impl):
     if "__crash__" in impl or "error" in impl:
         return []
     J = ",".join
@@ -366,6 +446,14 @@ def compare(case, impl, model):
             ds.append(f"model request {tag} answered {o}")
     if ds:
         return ds
+    ds = _compare_one(case, impl, {k: v for k, v in outs.items() if not k.startswith("B:")})
+    if case["kind"] == "ufpca" and "B" in case and isinstance(impl.get("B"), dict):
+        ds += ["second grid: " + d for d in _compare_one(_case_b(case), impl["B"], {k[2:]: v for k, v in outs.items() if k.startswith("B:")})]
+    return ds
+
+
+def _compare_one(case, impl, outs):
+    ds = []
     if case["kind"] == "mfpca":
         for p in range(len(case["comps"])):
             if f"inv1:{p}" in outs:
@@ -406,6 +494,15 @@ def _w(case):
 def oracle(case, impl):
     if case["kind"] == "mfpca":
         return _oracle_mfpca(case, impl)
+    vs = _oracle_one(case, impl)
+    if "B" in case and isinstance(impl.get("B"), dict) and "__crash__" not in impl:
+        for v in _oracle_one(_case_b(case), impl["B"]):
+            v["msg"] = "second grid (same length and end points): " + v["msg"]
+            vs.append(v)
+    return vs
+
+
+def _oracle_one(case, impl):
     score = case["score"]
     entry = f"UFPCA.transform[{score}]"
     if "__crash__" in impl:
@@ -455,6 +552,20 @@ def oracle(case, impl):
         if np.abs(D).max() > 1e-8 * lam_max:
             i, j = np.unravel_index(np.abs(D).argmax(), D.shape)
             bad("scores_cov", f"score covariance [{i},{j}] = {Cs[i, j]!r}, expected {vals[i] if i == j else 0.0!r}")
+    # --- Gram-based scores are (rescaled) projections on the eigenfunctions:
+    #     <z_i, phi_k>_w = s_ik (l_k + σ²)/l_k, l_k = n λ_k  (C02.gram_proj)
+    if case["method"] == "inner-product" and score == "InnPro" and K:
+        Z = (X - mean) / r
+        proj = (Z * w) @ Phi.T
+        lk = n * vals
+        sig = impl["noise"]
+        for k in range(K):
+            if lk[k] > 1e-10 * n * lam_max:
+                want = S0[:, k] * (lk[k] + sig) / lk[k]
+                if np.abs(proj[:, k] - want).max() > 1e-7 * max(np.abs(want).max(), np.abs(Z).max() * np.abs(Phi[k]).max() * w.sum(), 1e-300):
+                    i = int(np.abs(proj[:, k] - want).argmax())
+                    bad("innpro_projection", f"Gram-based score [{i},{k}] = {S0[i, k]!r} is not the projection of curve {i} on eigenfunction {k} (<z,phi> = {proj[i, k]!r}, expected {want[i]!r}; n_obs = {n})")
+                    break
     # --- explicit training data = stored training data
     if score in ("NumInt", "PACE"):
         S1 = None if impl.get("s_train") is None else np.array(impl["s_train"], dtype=float).reshape(n, K)
@@ -523,7 +634,9 @@ def oracle(case, impl):
         if not np.array_equal(np.array(impl["s_none_again"]), np.array(impl["s_none"])):
             bad("repeatable", "a second transform(None) on the same estimator returns different scores")
     if "refit" in impl:
-        for key in ("vals", "weights", "mean", "phi"):
+        for key in ("vals", "weights", "mean", "phi", "cov"):
+            if key not in impl["refit"] or key not in impl["fresh"]:
+                continue
             a1, a2 = np.array(impl["refit"][key], dtype=float), np.array(impl["fresh"][key], dtype=float)
             if a1.shape != a2.shape or not np.array_equal(a1, a2, equal_nan=True):
                 bad("stale_state", f"refitting the same estimator on other data gives a different `{key}` than a fresh estimator")
